@@ -24,3 +24,14 @@ package commands
 //@   props C17
 //@   opt assume_pre=(*Identity).Id
 //@   assert at `router.Use(auth.Middleware(author.Id()))` [a-user-is-attached-only-when-not-read-only] !opts.readOnly
+
+// A command that opens the cache in its pre-run (LoadBackend / LoadBackendEnsureUser - which takes the repository's
+// lock) runs its body inside CloseBackend, which gives the lock back on success and on failure (C19).
+// (newWipeCommand is the exception: runWipe closes the backend itself on every path, before it removes the storage.)
+//@ func newLabelCommand
+//@ func newPullCommand
+//@ func newPushCommand
+//@ func newTermUICommand
+//@   props C19
+//@   stable execenv.lastLoader, execenv.lastCloser, all(cobra.Command.PreRunE), all(cobra.Command.RunE)
+//@   check [a-command-that-opens-the-cache-gives-it-back] cmd != nil && cmd.PreRunE == execenv.lastLoader && cmd.RunE == execenv.lastCloser
